@@ -41,7 +41,10 @@ def gen_package_json(rng):
             s = npm_spec(rng, u); deps.append((sec, key, s, (key, s, None, s)))
         elif k < 9:
             real = rng.choice(["@scope/real", "real-pkg"]); s = npm_spec(rng, u).split(" ")[0]
-            tok = f"npm:{real}@{s}"; deps.append((sec, key, tok, (real, s, None, tok)))
+            if rng.chance(1, 4):      # an alias without a version means "latest"
+                tok = f"npm:{real}"; deps.append((sec, key, tok, (real, "latest", None, tok)))
+            else:
+                tok = f"npm:{real}@{s}"; deps.append((sec, key, tok, (real, s, None, tok)))
         elif k < 10:
             deps.append((sec, key, rng.choice(["latest", "next"]), None))      # a tag: the declared spec is the tag itself
             deps[-1] = (sec, key, deps[-1][2], (key, deps[-1][2], None, deps[-1][2]))
